@@ -83,3 +83,338 @@ package validate
 //@   known_finding D4-mult when !integralF(multipleOf)
 //@   known_finding D17-uintptr when kind(val) == 12
 //@   ensures[C13,C16] implies(isUint(val), (result == nil) == (uint64of(val) % uint64(multipleOf) == 0))
+
+// ---------------------------------------------------------------------------
+// result.go: Result algebra (C20). Abstract view of a Result: the sequences of
+// messages msg(e) of r.Errors / r.Warnings, and r.MatchCount.
+//
+//@ pred nodupE(s []error) = forall(a, 0, len(s), forall(b, 0, len(s), implies(a < b, msg(s[a]) != msg(s[b]))))
+//@ pred nonnilE(s []error) = forall(a, 0, len(s), s[a] != nil)
+//@ pred wfErrs(s []error) = nonnilE(s) && nodupE(s)
+//@ pred hasMsg(s []error, e error) = exists(i, 0, len(s), msg(s[i]) == msg(e))
+
+//@ func (*Result).AddErrors
+//@   requires r != nil && wfErrs(r.Errors)
+//@   requires arr(errors) != arr(r.Errors) || len(errors) == 0
+//@   modifies r.Errors, elems(r.Errors)
+//@   ensures[C20] wfErrs(r.Errors)
+//@   ensures[C20] len(r.Errors) >= old(len(r.Errors)) && forall(i, 0, old(len(r.Errors)), r.Errors[i] == old(r.Errors[i]))
+//@   ensures[C20] forall(j, 0, len(errors), implies(errors[j] != nil, hasMsg(r.Errors, errors[j])))
+//@   ensures[C20,local] forall(i, old(len(r.Errors)), len(r.Errors), exists(j, 0, len(errors), errors[j] == r.Errors[i]))
+//@   ensures[C20] arr(r.Errors) == old(arr(r.Errors)) || fresh(arr(r.Errors))
+//@   loop 1 invariant -1 <= idx1 && idx1 < len(errors) || (idx1 == -1 && len(errors) == 0)
+//@   loop 1 invariant nonnilE(r.Errors)
+//@   loop 1 invariant nodupE(r.Errors)
+//@   loop 1 invariant len(r.Errors) >= old(len(r.Errors)) && forall(i, 0, old(len(r.Errors)), r.Errors[i] == old(r.Errors[i]))
+//@   loop 1 invariant forall(j, 0, idx1 + 1, implies(errors[j] != nil, hasMsg(r.Errors, errors[j])))
+//@   loop 1 invariant forall(i, old(len(r.Errors)), len(r.Errors), exists(j, 0, idx1 + 1, errors[j] == r.Errors[i]))
+//@   loop 1 invariant arr(r.Errors) == old(arr(r.Errors)) || fresh(arr(r.Errors))
+//@   loop 1 invariant forall(j, 0, len(errors), errors[j] == old(errors[j]))
+//@   loop 2 invariant -1 <= idx2 && idx2 < len(r.Errors) || (idx2 == -1 && len(r.Errors) == 0)
+//@   loop 2 invariant forall(k, 0, idx2 + 1, msg(r.Errors[k]) != msg(e))
+
+//@ func (*Result).AddWarnings
+//@   requires r != nil && wfErrs(r.Warnings)
+//@   requires arr(warnings) != arr(r.Warnings) || len(warnings) == 0
+//@   modifies r.Warnings, elems(r.Warnings)
+//@   ensures[C20] wfErrs(r.Warnings)
+//@   ensures[C20] len(r.Warnings) >= old(len(r.Warnings)) && forall(i, 0, old(len(r.Warnings)), r.Warnings[i] == old(r.Warnings[i]))
+//@   ensures[C20] forall(j, 0, len(warnings), implies(warnings[j] != nil, hasMsg(r.Warnings, warnings[j])))
+//@   ensures[C20,local] forall(i, old(len(r.Warnings)), len(r.Warnings), exists(j, 0, len(warnings), warnings[j] == r.Warnings[i]))
+//@   ensures[C20] arr(r.Warnings) == old(arr(r.Warnings)) || fresh(arr(r.Warnings))
+//@   loop 1 invariant -1 <= idx1 && idx1 < len(warnings) || (idx1 == -1 && len(warnings) == 0)
+//@   loop 1 invariant nonnilE(r.Warnings)
+//@   loop 1 invariant nodupE(r.Warnings)
+//@   loop 1 invariant len(r.Warnings) >= old(len(r.Warnings)) && forall(i, 0, old(len(r.Warnings)), r.Warnings[i] == old(r.Warnings[i]))
+//@   loop 1 invariant forall(j, 0, idx1 + 1, implies(warnings[j] != nil, hasMsg(r.Warnings, warnings[j])))
+//@   loop 1 invariant forall(i, old(len(r.Warnings)), len(r.Warnings), exists(j, 0, idx1 + 1, warnings[j] == r.Warnings[i]))
+//@   loop 1 invariant arr(r.Warnings) == old(arr(r.Warnings)) || fresh(arr(r.Warnings))
+//@   loop 1 invariant forall(j, 0, len(warnings), warnings[j] == old(warnings[j]))
+//@   loop 2 invariant -1 <= idx2 && idx2 < len(r.Warnings) || (idx2 == -1 && len(r.Warnings) == 0)
+//@   loop 2 invariant forall(k, 0, idx2 + 1, msg(r.Warnings[k]) != msg(e))
+
+// queries tolerate a nil receiver; validity is exactly the absence of errors
+//@ func (*Result).IsValid
+//@   pure
+//@   ensures[C20,C17] result == (r == nil || len(r.Errors) == 0)
+//@ func (*Result).HasErrors
+//@   pure
+//@   ensures[C20,C17] result == (r != nil && len(r.Errors) > 0)
+//@ func (*Result).HasWarnings
+//@   pure
+//@   ensures[C20] result == (r != nil && len(r.Warnings) > 0)
+//@ func (*Result).HasErrorsOrWarnings
+//@   pure
+//@   ensures[C20] result == (r != nil && (len(r.Errors) > 0 || len(r.Warnings) > 0))
+//@ func (*Result).Inc
+//@   requires r != nil
+//@   modifies r.MatchCount
+//@   ensures[C20] r.MatchCount == old(r.MatchCount) + 1
+
+// ---------------------------------------------------------------------------
+// pools.go: ownership discipline of recycled objects (C04, C05, C11).
+// Ghost state redeemed(p): p has been handed back to its pool and not been borrowed again.
+// Borrow*: result is a pooled object (fresh or previously redeemed), live afterwards, fields unknown.
+// Redeem*: the object must be non-nil and live (no double redeem, no typed nil in the pool).
+//@ func (schemaValidatorsPool).BorrowValidator
+//@   assume pooltag(p.Pool) == tidof("*SchemaValidator")
+//@   recycled result
+//@   modifies ghost("G$redeemed")
+//@   ensures[C04] result != nil && !redeemed(result)
+//@   ensures[C04] forallp(q, q == result || redeemed(q) == old(redeemed(q)))
+//@ func (schemaValidatorsPool).RedeemValidator
+//@   requires[C04,C11] s != nil && !redeemed(s)
+//@   modifies redeemed(s)
+//@   ensures[C04] redeemed(s)
+//@ func (objectValidatorsPool).BorrowValidator
+//@   assume pooltag(p.Pool) == tidof("*objectValidator")
+//@   recycled result
+//@   modifies ghost("G$redeemed")
+//@   ensures[C04] result != nil && !redeemed(result)
+//@   ensures[C04] forallp(q, q == result || redeemed(q) == old(redeemed(q)))
+//@ func (objectValidatorsPool).RedeemValidator
+//@   requires[C04,C11] s != nil && !redeemed(s)
+//@   modifies redeemed(s)
+//@   ensures[C04] redeemed(s)
+//@ func (sliceValidatorsPool).BorrowValidator
+//@   assume pooltag(p.Pool) == tidof("*schemaSliceValidator")
+//@   recycled result
+//@   modifies ghost("G$redeemed")
+//@   ensures[C04] result != nil && !redeemed(result)
+//@   ensures[C04] forallp(q, q == result || redeemed(q) == old(redeemed(q)))
+//@ func (sliceValidatorsPool).RedeemValidator
+//@   requires[C04,C11] s != nil && !redeemed(s)
+//@   modifies redeemed(s)
+//@   ensures[C04] redeemed(s)
+//@ func (itemsValidatorsPool).BorrowValidator
+//@   assume pooltag(p.Pool) == tidof("*itemsValidator")
+//@   recycled result
+//@   modifies ghost("G$redeemed")
+//@   ensures[C04] result != nil && !redeemed(result)
+//@   ensures[C04] forallp(q, q == result || redeemed(q) == old(redeemed(q)))
+//@ func (itemsValidatorsPool).RedeemValidator
+//@   requires[C04,C11] s != nil && !redeemed(s)
+//@   modifies redeemed(s)
+//@   ensures[C04] redeemed(s)
+//@ func (basicCommonValidatorsPool).BorrowValidator
+//@   assume pooltag(p.Pool) == tidof("*basicCommonValidator")
+//@   recycled result
+//@   modifies ghost("G$redeemed")
+//@   ensures[C04] result != nil && !redeemed(result)
+//@   ensures[C04] forallp(q, q == result || redeemed(q) == old(redeemed(q)))
+//@ func (basicCommonValidatorsPool).RedeemValidator
+//@   requires[C04,C11] s != nil && !redeemed(s)
+//@   modifies redeemed(s)
+//@   ensures[C04] redeemed(s)
+//@ func (headerValidatorsPool).BorrowValidator
+//@   assume pooltag(p.Pool) == tidof("*HeaderValidator")
+//@   recycled result
+//@   modifies ghost("G$redeemed")
+//@   ensures[C04] result != nil && !redeemed(result)
+//@   ensures[C04] forallp(q, q == result || redeemed(q) == old(redeemed(q)))
+//@ func (headerValidatorsPool).RedeemValidator
+//@   requires[C04,C11] s != nil && !redeemed(s)
+//@   modifies redeemed(s)
+//@   ensures[C04] redeemed(s)
+//@ func (paramValidatorsPool).BorrowValidator
+//@   assume pooltag(p.Pool) == tidof("*ParamValidator")
+//@   recycled result
+//@   modifies ghost("G$redeemed")
+//@   ensures[C04] result != nil && !redeemed(result)
+//@   ensures[C04] forallp(q, q == result || redeemed(q) == old(redeemed(q)))
+//@ func (paramValidatorsPool).RedeemValidator
+//@   requires[C04,C11] s != nil && !redeemed(s)
+//@   modifies redeemed(s)
+//@   ensures[C04] redeemed(s)
+//@ func (basicSliceValidatorsPool).BorrowValidator
+//@   assume pooltag(p.Pool) == tidof("*basicSliceValidator")
+//@   recycled result
+//@   modifies ghost("G$redeemed")
+//@   ensures[C04] result != nil && !redeemed(result)
+//@   ensures[C04] forallp(q, q == result || redeemed(q) == old(redeemed(q)))
+//@ func (basicSliceValidatorsPool).RedeemValidator
+//@   requires[C04,C11] s != nil && !redeemed(s)
+//@   modifies redeemed(s)
+//@   ensures[C04] redeemed(s)
+//@ func (numberValidatorsPool).BorrowValidator
+//@   assume pooltag(p.Pool) == tidof("*numberValidator")
+//@   recycled result
+//@   modifies ghost("G$redeemed")
+//@   ensures[C04] result != nil && !redeemed(result)
+//@   ensures[C04] forallp(q, q == result || redeemed(q) == old(redeemed(q)))
+//@ func (numberValidatorsPool).RedeemValidator
+//@   requires[C04,C11] s != nil && !redeemed(s)
+//@   modifies redeemed(s)
+//@   ensures[C04] redeemed(s)
+//@ func (stringValidatorsPool).BorrowValidator
+//@   assume pooltag(p.Pool) == tidof("*stringValidator")
+//@   recycled result
+//@   modifies ghost("G$redeemed")
+//@   ensures[C04] result != nil && !redeemed(result)
+//@   ensures[C04] forallp(q, q == result || redeemed(q) == old(redeemed(q)))
+//@ func (stringValidatorsPool).RedeemValidator
+//@   requires[C04,C11] s != nil && !redeemed(s)
+//@   modifies redeemed(s)
+//@   ensures[C04] redeemed(s)
+//@ func (schemaPropsValidatorsPool).BorrowValidator
+//@   assume pooltag(p.Pool) == tidof("*schemaPropsValidator")
+//@   recycled result
+//@   modifies ghost("G$redeemed")
+//@   ensures[C04] result != nil && !redeemed(result)
+//@   ensures[C04] forallp(q, q == result || redeemed(q) == old(redeemed(q)))
+//@ func (schemaPropsValidatorsPool).RedeemValidator
+//@   requires[C04,C11] s != nil && !redeemed(s)
+//@   modifies redeemed(s)
+//@   ensures[C04] redeemed(s)
+//@ func (formatValidatorsPool).BorrowValidator
+//@   assume pooltag(p.Pool) == tidof("*formatValidator")
+//@   recycled result
+//@   modifies ghost("G$redeemed")
+//@   ensures[C04] result != nil && !redeemed(result)
+//@   ensures[C04] forallp(q, q == result || redeemed(q) == old(redeemed(q)))
+//@ func (formatValidatorsPool).RedeemValidator
+//@   requires[C04,C11] s != nil && !redeemed(s)
+//@   modifies redeemed(s)
+//@   ensures[C04] redeemed(s)
+//@ func (typeValidatorsPool).BorrowValidator
+//@   assume pooltag(p.Pool) == tidof("*typeValidator")
+//@   recycled result
+//@   modifies ghost("G$redeemed")
+//@   ensures[C04] result != nil && !redeemed(result)
+//@   ensures[C04] forallp(q, q == result || redeemed(q) == old(redeemed(q)))
+//@ func (typeValidatorsPool).RedeemValidator
+//@   requires[C04,C11] s != nil && !redeemed(s)
+//@   modifies redeemed(s)
+//@   ensures[C04] redeemed(s)
+//@ func (schemasPool).BorrowSchema
+//@   assume pooltag(p.Pool) == tidof("*spec.Schema")
+//@   recycled result
+//@   modifies ghost("G$redeemed")
+//@   ensures[C04] result != nil && !redeemed(result)
+//@   ensures[C04] forallp(q, q == result || redeemed(q) == old(redeemed(q)))
+//@ func (schemasPool).RedeemSchema
+//@   requires[C04,C11] s != nil && !redeemed(s)
+//@   modifies redeemed(s)
+//@   ensures[C04] redeemed(s)
+//@ func (resultsPool).RedeemResult
+//@   requires[C04,C11] s != nil && (s == emptyResult || !redeemed(s))
+//@   modifies redeemed(s)
+//@   ensures[C04] implies(s != emptyResult, redeemed(s))
+//@   ensures[C04] implies(s == emptyResult, redeemed(s) == old(redeemed(s)))
+
+// cleared(): a recycled Result starts from the empty view (C04: nothing of an earlier validation survives)
+//@ func (*Result).cleared
+//@   requires r != nil
+//@   modifies all(r), mapof(r.cachedFieldSchemata), mapof(r.cachedItemSchemata)
+//@   ensures[C04,C20] result == r && len(r.Errors) == 0 && len(r.Warnings) == 0 && r.MatchCount == 0 && r.data == nil
+//@   ensures[C04] r.rootObjectSchemata.one == nil && len(r.rootObjectSchemata.multiple) == 0 && len(r.fieldSchemata) == 0 && len(r.itemSchemata) == 0
+//@   ensures[C04] r.wantsRedeemOnMerge
+//@   ensures[C04] len(r.cachedFieldSchemata) == 0 && len(r.cachedItemSchemata) == 0
+//@   ensures[C04,C20] arr(r.Errors) == old(arr(r.Errors)) && arr(r.Warnings) == old(arr(r.Warnings))
+//@   loop 1 invariant forallkey(q, r.cachedFieldSchemata, !visited(1, q))
+//@   loop 1 invariant len(r.Errors) == 0 && len(r.Warnings) == 0 && r.MatchCount == 0 && r.data == nil
+//@   loop 2 invariant forallkey(q, r.cachedItemSchemata, !visited(2, q))
+//@   loop 2 invariant len(r.cachedFieldSchemata) == 0
+
+//@ func (resultsPool).BorrowResult
+//@   assume pooltag(p.Pool) == tidof("*Result")
+//@   assume !redeemed(emptyResult)
+//@   recycled result
+//@   modifies ghost("G$redeemed")
+//@   ensures[C04] result != nil && !redeemed(result) && result != emptyResult
+//@   ensures[C04] forallp(q, q == result || redeemed(q) == old(redeemed(q)))
+//@   ensures[C04,C20] len(result.Errors) == 0 && len(result.Warnings) == 0 && result.MatchCount == 0 && result.data == nil
+//@   ensures[C04] result.rootObjectSchemata.one == nil && len(result.rootObjectSchemata.multiple) == 0 && len(result.fieldSchemata) == 0 && len(result.itemSchemata) == 0
+//@   ensures[C04] result.wantsRedeemOnMerge
+//@   ensures[C04] len(result.cachedFieldSchemata) == 0 && len(result.cachedItemSchemata) == 0
+
+// schemata helpers (thin frame contracts; the functional view for C18/C19 is stated on the Result methods)
+//@ func (*schemata).Len
+//@   requires s != nil
+//@   pure
+//@   ensures result == ite(s.one != nil, 1, len(s.multiple))
+//@ func (schemata).Clone
+//@   pure
+//@   requires forall(k, 0, len(s.multiple), s.multiple[k] != nil)
+//@   loop 1 invariant 0 <= idx && idx <= len(s.multiple)
+//@   ensures (result.one != nil) == (s.one != nil) && len(result.multiple) == len(s.multiple)
+//@   ensures implies(s.one != nil, fresh(result.one)) && implies(len(s.multiple) > 0, fresh(arr(result.multiple)))
+//@ func (*schemata).Append
+//@   requires s != nil
+//@   modifies all(s), elems(s.multiple)
+
+//@ pred liveRes(o *Result) = o == nil || !redeemed(o)
+//@ pred disjointE(a []error, b []error) = arr(a) != arr(b) || len(a) == 0
+//@ pred sepEW(r *Result) = arr(r.Errors) != arr(r.Warnings) || arr(r.Errors) == nil
+//@ pred mergeableInto(r *Result, o *Result) = o != r && disjointE(o.Errors, r.Errors) && disjointE(o.Warnings, r.Warnings) && disjointE(o.Warnings, r.Errors) && disjointE(o.Errors, r.Warnings)
+
+//@ func (*Result).mergeWithoutRootSchemata
+//@   requires r != nil && other != nil && wfErrs(r.Errors) && wfErrs(r.Warnings) && sepEW(r) && mergeableInto(r, other)
+//@   modifies r.Errors, r.Warnings, r.MatchCount, r.fieldSchemata, r.itemSchemata, r.cachedFieldSchemata, r.cachedItemSchemata, elems(r.Errors), elems(r.Warnings)
+//@   modifies heap("H$fieldSchemata$obj"), heap("H$fieldSchemata$field"), heap("H$itemSchemata$slice"), heap("H$itemSchemata$index"), heap("H$schemata$one"), heap("H$schemata$multiple")
+//@   ensures[C20] wfErrs(r.Errors) && wfErrs(r.Warnings) && sepEW(r)
+//@   ensures[C20] len(r.Errors) >= old(len(r.Errors)) && forall(i, 0, old(len(r.Errors)), r.Errors[i] == old(r.Errors[i]))
+//@   ensures[C20] len(r.Warnings) >= old(len(r.Warnings)) && forall(i, 0, old(len(r.Warnings)), r.Warnings[i] == old(r.Warnings[i]))
+//@   ensures[C20] forall(j, 0, old(len(other.Errors)), implies(old(other.Errors[j]) != nil, hasMsg(r.Errors, old(other.Errors[j]))))
+//@   ensures[C20] forall(j, 0, old(len(other.Warnings)), implies(old(other.Warnings[j]) != nil, hasMsg(r.Warnings, old(other.Warnings[j]))))
+//@   ensures[C20] r.MatchCount == old(r.MatchCount) + old(other.MatchCount)
+//@   ensures[C20,C04] (arr(r.Errors) == old(arr(r.Errors)) || fresh(arr(r.Errors))) && (arr(r.Warnings) == old(arr(r.Warnings)) || fresh(arr(r.Warnings)))
+
+// Merge family. Operands must be live, distinct from the receiver and from each other, and must not share
+// backing arrays with the receiver (the receiver never adopts an operand's array: independence, C20).
+// All call sites pass 1..3 operands: the body is verified once per operand count (case_len, loop unrolled)
+// and inlined at call sites, where the operand count is a literal.
+//@ pred wfRes(r *Result) = wfErrs(r.Errors) && wfErrs(r.Warnings) && sepEW(r)
+//@ pred mc(o *Result) = ite(o == nil, 0, o.MatchCount)
+//@ pred operandsOK(r *Result, others []*Result) = forall(j, 0, len(others), implies(others[j] != nil, !redeemed(others[j]) && mergeableInto(r, others[j]))) && forall(a, 0, len(others), forall(b, 0, len(others), implies(a < b && others[a] != nil, others[a] != others[b])))
+
+//@ func (*Result).Merge
+//@   inline
+//@   case_len others 1 2 3
+//@   loop 1 unroll
+//@   requires r != nil && !redeemed(r) && wfRes(r) && operandsOK(r, others) && !redeemed(emptyResult)
+//@   ensures[C20] result == r && wfRes(r)
+//@   ensures[C20] len(r.Errors) >= old(len(r.Errors)) && forall(i, 0, old(len(r.Errors)), r.Errors[i] == old(r.Errors[i]))
+//@   ensures[C20] len(r.Warnings) >= old(len(r.Warnings)) && forall(i, 0, old(len(r.Warnings)), r.Warnings[i] == old(r.Warnings[i]))
+//@   ensures[C20] forall(k, 0, len(others), implies(others[k] != nil, forall(j, 0, old(len(others[k].Errors)), implies(old(others[k].Errors[j]) != nil, hasMsg(r.Errors, old(others[k].Errors[j]))))))
+//@   ensures[C20] forall(k, 0, len(others), implies(others[k] != nil, forall(j, 0, old(len(others[k].Warnings)), implies(old(others[k].Warnings[j]) != nil, hasMsg(r.Warnings, old(others[k].Warnings[j]))))))
+//@   ensures[C20] implies(len(others) == 1, r.MatchCount == old(r.MatchCount) + old(mc(others[0])))
+//@   ensures[C20] implies(len(others) == 2, r.MatchCount == old(r.MatchCount) + old(mc(others[0])) + old(mc(others[1])))
+//@   ensures[C20] implies(len(others) == 3, r.MatchCount == old(r.MatchCount) + old(mc(others[0])) + old(mc(others[1])) + old(mc(others[2])))
+//@   ensures[C20,C04] (arr(r.Errors) == old(arr(r.Errors)) || fresh(arr(r.Errors))) && (arr(r.Warnings) == old(arr(r.Warnings)) || fresh(arr(r.Warnings)))
+//@   ensures[C04] !redeemed(r)
+//@   ensures[C04] forall(k, 0, len(others), implies(others[k] != nil && others[k] != emptyResult, redeemed(others[k]) == old(others[k].wantsRedeemOnMerge)))
+//@   ensures[C04] forallp(q, implies(forall(k, 0, len(others), others[k] != q), redeemed(q) == old(redeemed(q))))
+
+//@ func (*Result).MergeAsErrors
+//@   inline
+//@   case_len others 1 2
+//@   loop 1 unroll
+//@   requires r != nil && !redeemed(r) && wfRes(r) && operandsOK(r, others) && !redeemed(emptyResult)
+//@   ensures[C20] result == r && wfErrs(r.Errors)
+//@   ensures[C20] len(r.Errors) >= old(len(r.Errors)) && forall(i, 0, old(len(r.Errors)), r.Errors[i] == old(r.Errors[i]))
+//@   ensures[C20] r.Warnings == old(r.Warnings) && forall(i, 0, len(r.Warnings), r.Warnings[i] == old(r.Warnings[i]))
+//@   ensures[C20] forall(k, 0, len(others), implies(others[k] != nil, forall(j, 0, old(len(others[k].Errors)), implies(old(others[k].Errors[j]) != nil, hasMsg(r.Errors, old(others[k].Errors[j]))))))
+//@   ensures[C20] forall(k, 0, len(others), implies(others[k] != nil, forall(j, 0, old(len(others[k].Warnings)), implies(old(others[k].Warnings[j]) != nil, hasMsg(r.Errors, old(others[k].Warnings[j]))))))
+//@   ensures[C20] implies(len(others) == 1, r.MatchCount == old(r.MatchCount) + old(mc(others[0])))
+//@   ensures[C20,C04] arr(r.Errors) == old(arr(r.Errors)) || fresh(arr(r.Errors))
+//@   ensures[C04] forall(k, 0, len(others), implies(others[k] != nil && others[k] != emptyResult, redeemed(others[k]) == old(others[k].wantsRedeemOnMerge)))
+
+//@ func (*Result).MergeAsWarnings
+//@   inline
+//@   case_len others 1 2
+//@   loop 1 unroll
+//@   requires r != nil && !redeemed(r) && wfRes(r) && operandsOK(r, others) && !redeemed(emptyResult)
+//@   ensures[C20,C10] result == r && wfErrs(r.Warnings)
+//@   ensures[C20] len(r.Warnings) >= old(len(r.Warnings)) && forall(i, 0, old(len(r.Warnings)), r.Warnings[i] == old(r.Warnings[i]))
+//@   ensures[C20,C10] r.Errors == old(r.Errors) && forall(i, 0, len(r.Errors), r.Errors[i] == old(r.Errors[i]))
+//@   ensures[C20] forall(k, 0, len(others), implies(others[k] != nil, forall(j, 0, old(len(others[k].Errors)), implies(old(others[k].Errors[j]) != nil, hasMsg(r.Warnings, old(others[k].Errors[j]))))))
+//@   ensures[C20] forall(k, 0, len(others), implies(others[k] != nil, forall(j, 0, old(len(others[k].Warnings)), implies(old(others[k].Warnings[j]) != nil, hasMsg(r.Warnings, old(others[k].Warnings[j]))))))
+//@   ensures[C20] implies(len(others) == 1, r.MatchCount == old(r.MatchCount) + old(mc(others[0])))
+//@   ensures[C20,C04] arr(r.Warnings) == old(arr(r.Warnings)) || fresh(arr(r.Warnings))
+//@   ensures[C04] forall(k, 0, len(others), implies(others[k] != nil && others[k] != emptyResult, redeemed(others[k]) == old(others[k].wantsRedeemOnMerge)))
+
+// AsError: nil exactly for a valid result
+//@ func (*Result).AsError
+//@   requires r != nil
+//@   ensures[C20,C17] (result == nil) == (len(r.Errors) == 0)
